@@ -46,7 +46,7 @@ goalign stats taxa -i align.fasta
 			}
 
 			al := <-aligns.Achan
-			if aligns.Err != nil {
+			if al == nil {
 				err = aligns.Err
 				io.LogError(err)
 				return
